@@ -5,6 +5,13 @@ from __future__ import annotations
 import ast
 
 CONSTRUCTS = {
+    # a u-prefixed literal whose value is also spelled without the prefix (more often), inside a loop that a rule rewrites as a comprehension
+    "u_prefix_with_plain_twins": 'names = []\nfor item in range(3):\n    names.append(u"key")\nprint("key", \'key\', "key", names)\n',
+    "U_prefix_in_rewritten_call": "values = list()\nfor k in ('a', 'b'):\n    values.append((U'tag', k))\nprint('tag', 'tag', 'tag', values)\n",
+    # two blanks per level, eight per level: what a rule that shifts a block by four columns makes of them
+    "two_space_indentation": "def pick(xs):\n  for x in xs:\n    if x > 1:\n      return x\n    else:\n      print(x)\n      continue\n  if False:\n    print('never')\n  else:\n    y = 1\n    return y\n\n\nprint(pick([1, 2]))\n",
+    "two_space_loop_jumps": "def scan(xs):\n  out = []\n  for x in xs:\n    if x:\n      out.append(x)\n      break\n    else:\n      if True:\n        out.append(0)\n        continue\n  while out:\n    if 1:\n      out.pop()\n      break\n  return out\n\n\nprint(scan([0, 1]))\n",
+    "eight_space_indentation": "def pick(xs):\n        for x in xs:\n                if x > 1:\n                        return x\n                else:\n                        print(x)\n        return None\n\n\nprint(pick([1, 2]))\n",
     'formfeed_sections': "import os\n\x0c\nNAMES = [\n    'a\tb',\n    'c',\n]\n\x0c\nS = [\n    '''x   \ny''',\n]\nprint(NAMES, S, os.sep)\n",
     'yield_and_walrus_in_append_loops': 'def gen(xs):\n    out = []\n    for x in xs:\n        out.append((yield x))\n    return out\n\n\ndef walrus(xs):\n    out = []\n    for x in xs:\n        out.append(y := x + 1)\n    return out, y\n\n\ndef gen2(xs):\n    seen = set()\n    for x in xs:\n        seen.add((yield from x))\n    return seen\n\n\nprint(list(gen([1, 2])), walrus([1]), list(gen2([[1], [2]])))\n',
     'nonlocal_and_global_camel_names': 'totalCount = 0\n\n\ndef outerFn():\n    someValue = 1\n\n    def inner():\n        nonlocal someValue\n        global totalCount\n        someValue += 1\n        totalCount += 1\n        return someValue\n\n    return inner()\n\n\nprint(outerFn(), totalCount)\n',
@@ -109,7 +116,8 @@ CONDITION_TEMPLATES = [
     "r = [i for i in range({E}) if i > {E}]\n",
 ]
 
-DEGENERATE = ["x = 1\n\\\n\ny = 2\n", "\\\n\n", "x = 1 \\\n\n", "print(1) \\\n\n\n", "import os\nprint(os.sep) \\\n\n", "def f():\n    return 1 \\\n\n", "", " ", "\n", "\n\n\n", "\t", "   \n  \n", "\ufeff", "\ufeffx = 1\n", "\x00", "x = 1\x00\n", "#", "# only a comment", "pass", "...", "\\", "\\\n",
+DEGENERATE = ["x = 1\n" + "\n" * 40 + "y = 2\n", "def f():\n    x = 1\n" + "   \n" * 45 + "    return x\n" + "\n" * 30 + "print(f())\n", "x = 1\n" + " \t\n" * 64 + "y = 2\n" + "\n" * 64,
+              "x = 1\n\\\n\ny = 2\n", "\\\n\n", "x = 1 \\\n\n", "print(1) \\\n\n\n", "import os\nprint(os.sep) \\\n\n", "def f():\n    return 1 \\\n\n", "", " ", "\n", "\n\n\n", "\t", "   \n  \n", "\ufeff", "\ufeffx = 1\n", "\x00", "x = 1\x00\n", "#", "# only a comment", "pass", "...", "\\", "\\\n",
               "'''", "'unterminated", "(", ")", "x = (", "def f(", "def f():", "class", "if x:", "    x = 1", "\tx = 1\n\ty = 2\n", "  if x:\n      y = 1\n",
               "x = 1\r\ny = 2\r\n", "x = 1\ry = 2\r", "x = 1\x0cy = 2", "\x0c\nx = 1\n", "x = '\u2028'\n", "# pyrefact: skip_file", "x = 1  # pyrefact: ignore\n",
               "print 'python2'", "exec 'x'", "x = 0777", "async = 1", "match = 1; case = 2; type = 3; print(match, case, type)\n", "lambda: (yield)",
